@@ -338,7 +338,7 @@ def hint_noop(ex, st, callee, args, m):
     return []
 
 
-@model(r'^<tracing(?:_core)?::(?:metadata::)?Level as (?:std::cmp::|core::cmp::)?PartialOrd<tracing(?:_core)?::(?:metadata::)?LevelFilter>>::(le|lt|ge|gt)$|^<(?:log::)?Level as PartialOrd<(?:log::)?LevelFilter>>::(le|lt|ge|gt)$|^<Level as PartialOrd<LevelFilter>>::(le|lt|ge|gt)$')
+@model(r'^<tracing(?:_core)?::(?:metadata::)?Level as (?:std::cmp::|core::cmp::)?PartialOrd<tracing(?:_core)?::(?:metadata::)?LevelFilter>>::(le|lt|ge|gt)$|^<(?:log::)?Level as PartialOrd<(?:log::)?LevelFilter>>::(le|lt|ge|gt)$|^<Level as PartialOrd<LevelFilter>>::(le|lt|ge|gt)$|^<tracing::log::Level as PartialOrd<tracing::log::LevelFilter>>::(le|lt|ge|gt)$')
 def tracing_disabled(ex, st, callee, args, m):
     """logging cut: the level test every tracing/log macro starts with is 'statically disabled'"""
     return BoolVal(False)
